@@ -30,6 +30,10 @@ pub fn run(args: &Args) {
     let fork_step = args.num("fork-step", 0);
     let fork_count = args.num("fork-count", 1);
     let fork_steps = args.num("fork-steps", 60);
+    // adversarial continuation: the given node is cut off for the first two thirds of the continuation (the others elect a
+    // leader and clients append there), then the network heals - what a wrong step on that node needs to become visible as
+    // disagreement (99 = no isolation: benign continuation)
+    let fork_isolate = args.num("fork-isolate", 99);
     std::fs::create_dir_all(&work).unwrap();
     let mut trace = Trace::create(&out);
     let (mut n_steps, mut n_deliver, mut n_drop, mut n_dup, mut n_proc, mut n_append, mut n_restart, mut n_leader_steps) = (0u64, 0u64, 0u64, 0u64, 0u64, 0u64, 0u64, 0u64);
@@ -52,6 +56,10 @@ pub fn run(args: &Args) {
                 w_drop = 0;
                 w_dup = 0;
                 w_part = 0;
+                isolated = if fork_isolate < n as u64 { Some(fork_isolate) } else { None };
+                if fork_isolate < n as u64 { appends = appends.saturating_sub(3); }
+            }
+            if fork_step > 0 && fork_isolate < n as u64 && step_no == fork_step + (2 * fork_steps) / 3 {
                 isolated = None;
             }
             if w_part > 0 && rng.below(1000) < w_part {
